@@ -12,6 +12,7 @@ import (
 	"github.com/smart-core-os/sc-api/go/traits"
 	"github.com/smart-core-os/sc-api/go/types"
 
+	"github.com/smart-core-os/sc-golang/pkg/masks"
 	"github.com/smart-core-os/sc-golang/pkg/resource"
 )
 
@@ -109,7 +110,8 @@ func (s *ModelServer) ListModes(_ context.Context, request *traits.ListModesRequ
 	lastKey := pageToken.GetLastResourceName() // the key() of the last item we sent
 	pageSize := capPageSize(int(request.GetPageSize()))
 
-	sortedModes := s.model.Modes(resource.WithReadMask(request.ReadMask))
+	// page over the unfiltered listing: the read mask may leave out the field the page token is made of
+	sortedModes := s.model.Modes()
 	nextIndex := 0
 	if lastKey != "" {
 		nextIndex = sort.Search(len(sortedModes), func(i int) bool {
@@ -136,6 +138,13 @@ func (s *ModelServer) ListModes(_ context.Context, request *traits.ListModesRequ
 		return nil, err
 	}
 	result.Modes = sortedModes[nextIndex:upperBound]
+
+	// apply read mask
+	mask := masks.NewResponseFilter(masks.WithFieldMask(request.ReadMask))
+	for i, item := range result.Modes {
+		result.Modes[i] = mask.FilterClone(item).(*traits.ElectricMode)
+	}
+
 	return result, nil
 }
 
